@@ -4,6 +4,7 @@ go 1.19
 
 require (
 	github.com/evanphx/json-patch v4.12.0+incompatible
+	github.com/go-logr/logr v1.2.3
 	github.com/openkruise/kruise-api v1.3.0
 	github.com/openkruise/rollouts v0.0.0
 	github.com/yuin/gopher-lua v0.0.0-20220504180219-658193537a64
@@ -24,7 +25,6 @@ require (
 	github.com/emicklei/go-restful/v3 v3.9.0 // indirect
 	github.com/evanphx/json-patch/v5 v5.6.0 // indirect
 	github.com/fsnotify/fsnotify v1.6.0 // indirect
-	github.com/go-logr/logr v1.2.3 // indirect
 	github.com/go-openapi/jsonpointer v0.19.5 // indirect
 	github.com/go-openapi/jsonreference v0.20.0 // indirect
 	github.com/go-openapi/swag v0.19.14 // indirect
